@@ -1,5 +1,5 @@
 """Concretisation table shared with spec/Chars.tla (rank -> character, ascending Unicode scalar order)."""
-TABLE = ["\n", "\r", " ", '"', "#", "$", ",", "-", "0", "9", ":", "=", "A", "Z", "\\", "_", "a", "z", "{", "}", "é", "٣", "你", "\U0001F600"]
+TABLE = ["\n", "\r", " ", '"', "#", "$", ",", "-", "0", "9", ":", "=", "A", "Z", "\\", "_", "a", "z", "{", "}", "é", "ÿ", "٣", "你", "\U0001F600"]
 RANK = {c: i + 1 for i, c in enumerate(TABLE)}
 assert TABLE == sorted(TABLE)
 
